@@ -49,8 +49,9 @@ func (fx *FuncExec) execCall(fn *ssa.Function, st *State, reach *Term, res ssa.V
 		return r
 	case VFunc:
 		all := append(append([]Value{}, args...), []Value{}...)
-		if len(fx.stack) == 1 && fx.con != nil && len(fx.con.Anchors) > 0 {
-			reach = fx.runAnchors(fn, st, reach, fmt.Sprintf("call:%s#%d", shortFuncName(f.fn), fx.callOrdinal(fn, cc, f.fn)), all, src)
+		if ac := fx.anchorContract(fn); ac != nil {
+			nm, ord := fx.callSiteName(fn, cc, f.fn)
+			reach = fx.runAnchors(fn, ac, st, reach, fmt.Sprintf("call:%s#%d", nm, ord), all, src)
 		}
 		r, v := fx.callFunc(st, reach, f.fn, f.bind, all, resType, src)
 		setRes(v)
@@ -176,6 +177,12 @@ func (fx *FuncExec) inline(st *State, reach *Term, callee *ssa.Function, bind []
 	fx.depth++
 	savedEntry := fx.entries[callee]
 	fx.entries[callee] = st.Clone()
+	if ic := fx.eng.contractFor(callee); ic != nil && ic.Inline && len(ic.Anchors) > 0 {
+		if fx.inlinedCons == nil {
+			fx.inlinedCons = map[*Contract]bool{}
+		}
+		fx.inlinedCons[ic] = true
+	}
 	er, exit, results := fx.runBody(callee, st, reach, fx.eng.contractFor(callee))
 	if savedEntry != nil {
 		fx.entries[callee] = savedEntry
@@ -525,13 +532,83 @@ func (fx *FuncExec) doCopy(st *State, reach *Term, args []Value, src string) (*T
 
 // runAnchors evaluates the contract's anchored clauses attached to this call
 // (assert@call:<callee>#<k>, ghost@call:<callee>#<k>) in the state just before it.
-func (fx *FuncExec) runAnchors(fn *ssa.Function, st *State, reach *Term, want string, args []Value, src string) *Term {
-	for _, a := range fx.con.Anchors {
+// anchorContract is the contract whose anchored clauses apply to calls made by fn: the contract under verification
+// for the function itself, and the (inline) contract of a closure or helper that is being inlined into it.
+func (fx *FuncExec) anchorContract(fn *ssa.Function) *Contract {
+	if fn == fx.fn {
+		if len(fx.stack) == 1 && fx.con != nil && len(fx.con.Anchors) > 0 {
+			return fx.con
+		}
+		return nil
+	}
+	if c := fx.eng.contractFor(fn); c != nil && c.Inline && len(c.Anchors) > 0 {
+		return c
+	}
+	return nil
+}
+
+// callSiteName names a call for anchors: the callee's name for static calls, the local variable's name for a
+// call through a closure variable ("markClosed"), and its ordinal among the calls of the same name in fn.
+func (fx *FuncExec) callSiteName(fn *ssa.Function, cc *ssa.CallCommon, callee *ssa.Function) (string, int) {
+	key := func(c *ssa.CallCommon) string {
+		if sc := c.StaticCallee(); sc != nil {
+			return shortFuncName(sc)
+		}
+		if u, ok := c.Value.(*ssa.UnOp); ok {
+			switch x := u.X.(type) {
+			case *ssa.Alloc:
+				return x.Comment
+			case *ssa.FreeVar:
+				return x.Name()
+			}
+		}
+		return ""
+	}
+	want := key(cc)
+	if want == "" {
+		if callee == nil {
+			return "", 0
+		}
+		return shortFuncName(callee), 0
+	}
+	type site struct {
+		pos int
+		cc  *ssa.CallCommon
+	}
+	var sites []site
+	for _, b := range fn.Blocks {
+		for _, in := range b.Instrs {
+			var c *ssa.CallCommon
+			switch x := in.(type) {
+			case *ssa.Call:
+				c = &x.Call
+			case *ssa.Defer:
+				c = &x.Call
+			case *ssa.Go:
+				c = &x.Call
+			}
+			if c != nil && key(c) == want {
+				sites = append(sites, site{int(in.Pos()), c})
+			}
+		}
+	}
+	sort.Slice(sites, func(i, j int) bool { return sites[i].pos < sites[j].pos })
+	for i, s := range sites {
+		if s.cc == cc {
+			return want, i + 1
+		}
+	}
+	return want, 0
+}
+
+func (fx *FuncExec) runAnchors(fn *ssa.Function, ac *Contract, st *State, reach *Term, want string, args []Value, src string) *Term {
+	for _, a := range ac.Anchors {
 		if normFuncName(a.Anchor) != normFuncName(want) {
 			continue
 		}
-		fx.anchorHit[a.Anchor+"/"+a.Label] = true
-		env := &cenv{fx: fx, fn: fn, st: st, old: fx.entry, con: fx.con, binds: map[string]Value{}, body: true, reach: reach}
+		fx.anchorHit[ac.Func+"|"+a.Anchor+"/"+a.Label] = true
+		env := &cenv{fx: fx, fn: fn, st: st, old: fx.entryFor(fn), con: ac, binds: map[string]Value{}, body: true, reach: reach}
+
 		for i, v := range args {
 			env.binds[fmt.Sprintf("arg%d", i)] = v // the call's arguments (arg0 is the receiver of a method)
 		}
